@@ -62,7 +62,8 @@ class TextFile(io.StringIO):
         self._fs, self._path = fs, path
 
     def close(self):
-        self._fs.files[self._path] = self.getvalue()
+        if not self.closed:
+            self._fs.files[self._path] = self.getvalue()
         super().close()
 
 
